@@ -221,6 +221,15 @@ def run(ctx, crate):
             if how is None and msg == "Overflow:Mul" and len(ops) == 2 and ops[0][0] == "cast" and len(ops[0]) > 3 and ops[0][3] == "u8" and ops[0][2] in ("u16", "u32", "u64", "usize", "i32", "i64") \
                     and ops[1][0] == "const" and ops[1][1] == "int" and 0 <= ops[1][2] <= 128:
                 how = "G.range: u8 widened to %s times %d cannot overflow" % (ops[0][2], ops[1][2])
+            if how is None and msg == "Overflow:Add" and len(ops) == 2 and ops[1] == ("const", "int", 1):
+                inner = ops[0]
+                while inner[0] == "cast":
+                    inner = inner[1]
+                if T.is_call(inner, "partition_point") and len(inner[2]) == 2 and ((inner[2][0][0] == "call" and inner[2][0][1].startswith("std::vec::Vec::")) or
+                                                                                       (b.path == D.LINE_FN and inner[2][0] == ("param", 2))):
+                    # the line lookup through a table of line-feed positions (C02's table form): the partition point is at most the table's length,
+                    # which is the number of line feeds of the input - the bound of the counting form's justification
+                    how = "G.count: a partition point is at most the length of the table searched (one entry per line feed of the input; files are far smaller than 2^31 lines)"
             if how is None:
                 how = justify(b, msg, " ; ".join(show(o) for o in ops), None, ops[0] if ops else ("unknown", ""))
             obs.append(Ob("R04.sites", fnshort, "assert %s" % desc, how is not None, site=where,
